@@ -160,4 +160,9 @@ theorem C03_zero_tail (s : AState) (t : Bytes) (n r lo hi rep : Nat) (old : Byte
       zeros (aStep s (.realloc t n r)).1.free :=
   ⟨((C01_ryw s t r).2 n lo hi rep old hok hold).1, by simp [encS]⟩
 
+/-! non-vacuity of `C03_zero_tail`: a successful resize of a non-last entry on a concrete state -/
+example : (aStep ⟨[⟨[1,1,1,1,1,1,1,1], [7, 8]⟩, ⟨[1,1,1,1,1,1,1,2], [9]⟩], 5⟩ (.realloc [1,1,1,1,1,1,1,1] 4 0)).2 = .okRange 12 16 0 ∧
+    C01.aGet ⟨[⟨[1,1,1,1,1,1,1,1], [7, 8]⟩, ⟨[1,1,1,1,1,1,1,2], [9]⟩], 5⟩ [1,1,1,1,1,1,1,1] 0 = some [7, 8] := by decide
+example : encS ⟨[⟨[1,1,1,1,1,1,1,1], [7, 8]⟩], 2⟩ = [1,1,1,1,1,1,1,1, 2,0,0,0, 7,8, 0,0] := by decide
+
 end C03
